@@ -198,7 +198,7 @@ def rank_based_mask(ctx):
             continue
         m = p.value
         ok = isinstance(m, MV)
-        ctx.oblige(f"C09/rank_based_mask[eq={eq}]/struct/matrix", ok, [], props, kind="struct", fn=fnq)
+        ctx.oblige(f"C09/rank_based_mask[eq={eq}]/struct/matrix", ok, [], props, kind="applicability", fn=fnq)
         if ok:
             want = (OUT(r_) >= IN(c_)) if eq else (OUT(r_) > IN(c_))
             ctx.oblige(f"C09/rank_based_mask[eq={eq}]/post/pattern", m.f(r_, c_) == want, p.cond, props, fn=fnq, replay=dict(kind="c09", vars={}))
@@ -389,7 +389,7 @@ def _masked_path(ctx, it, p, tag, props, MQ, fnq, ranks_of, depth, conditional, 
     layers = mlp.layers
     Where = it.repo_class("flowjax.wrappers.Where")
     ok = len(layers) == depth + 1 and all(isinstance(l.weight, Obj) and obj_class(l.weight) is Where for l in layers)
-    ctx.oblige(f"C09/masked_autoregressive_mlp[{tag}]/struct/every_weight_is_a_Where_wrapper", bool(ok), [], props, kind="struct", fn=f"{MQ}.masked_autoregressive_mlp",
+    ctx.oblige(f"C09/masked_autoregressive_mlp[{tag}]/struct/every_weight_is_a_Where_wrapper", bool(ok), [], props, kind="applicability", fn=f"{MQ}.masked_autoregressive_mlp",
                note="masks live in Where wrappers (applied at every unwrap), boolean masks are not inexact arrays so no optimiser touches them")
     # arbitrary training: havoc every inexact leaf, then the real unwrap
     trained, nleaves = havoc_inexact(it, mlp, "Wtrained")
@@ -416,7 +416,7 @@ def _masked_path(ctx, it, p, tag, props, MQ, fnq, ranks_of, depth, conditional, 
     for l, lin in enumerate(um.layers):
         Wl = lin.weight
         okw = isinstance(Wl, MV)
-        ctx.oblige(f"C09/masked_autoregressive_mlp[{tag}]/layer{l}/struct/unwrapped_matrix", okw, [], props, kind="struct", fn=f"{MQ}.masked_autoregressive_mlp")
+        ctx.oblige(f"C09/masked_autoregressive_mlp[{tag}]/layer{l}/struct/unwrapped_matrix", okw, [], props, kind="applicability", fn=f"{MQ}.masked_autoregressive_mlp")
         if not okw:
             continue
         o_, i_ = idx[l + 1], idx[l]
@@ -502,7 +502,7 @@ def bnaf_linear(ctx):
         return
     Wm = pus[0].value.weight
     ok = isinstance(Wm, MV)
-    ctx.oblige("C09/block_autoregressive_linear/struct/unwrapped_matrix", ok, [], props, kind="struct", fn=fnq)
+    ctx.oblige("C09/block_autoregressive_linear/struct/unwrapped_matrix", ok, [], props, kind="applicability", fn=fnq)
     if not ok:
         return
     w = Wm.f(r_, c_)
